@@ -16,7 +16,7 @@ LEVEL = "fault_enumeration"
 RULE = (
     "programs (DAGs, gated programs) with a random subset of function nodes and gates cacheable, including one function "
     "object shared by nodes with different output names or swapped input renames, a cached node that mutates one of "
-    "its arguments in place (every run gets fresh argument objects), a cached emitter whose signal is read as data; histories of 3-10 runs over a pool "
+    "its arguments in place (every run gets fresh argument objects), a cached emitter whose signal is read as data, one routing function shared by two cached gates with different targets, a cached interrupt (pause, resume with an answer, fresh run); histories of 3-10 runs over a pool "
     "of 2-3 input vectors sharing ONE backend between a SyncRunner and an AsyncRunner; backends: InMemoryCache unbounded "
     "and max_size 1..4, DiskCache in a fresh directory. Oracles: every cached run equals the uncached run (status, "
     "values, executed set); a wrapping backend records every get/set: InMemoryCache answers must equal a 15-line "
@@ -162,6 +162,17 @@ def cacheable_spec(rng):
         for v in inputs_pool:
             v.setdefault("mq", ["q0"])
             v.setdefault("mitem", "it")
+    # one ROUTING function shared by two cached gates whose (ordered) targets differ: a stored decision names a
+    # target of the gate that stored it
+    if rng.random() < 0.4:
+        gate = {"k": "ifelse", "fid": "shared/g", "shared_fn": "G", "pyname": "shared_g", "params": [{"n": "sgs"}], "key": "sgs", "table": [True, False], "cache": True, "open": False}
+        spec["nodes"] += [
+            {**copy.deepcopy(gate), "name": "sga", "t": "xa", "f": "xb"},
+            {**copy.deepcopy(gate), "name": "sgb", "t": "yb", "f": "ya"},
+        ] + [{"k": "fn", "name": nm, "params": [{"n": "sgx"}], "outs": [f"{nm}_out"]} for nm in ("xa", "xb", "ya", "yb")]
+        for v in inputs_pool:
+            v.setdefault("sgs", rng.randint(0, 1))
+            v.setdefault("sgx", "run:sgx")
     # one function object shared by two nodes wired differently
     if rng.random() < 0.6:
         a, b = "sa", "sb"
@@ -324,6 +335,54 @@ def history(ctx, i, backend_kind):
     ctx.case({"s": gen.shape_of(spec), "backend": case["backend"]}, hits > 0 or backend_kind == "disk", sample=case if i < 2 else None)
 
 
+def cached_interrupt(ctx, i):
+    """cache=True on an interrupt caches what its HANDLER computed, never an answer the caller supplied on resume:
+    pause -> resume with the answer -> a fresh run pauses again, exactly like the uncached runs."""
+    import asyncio
+
+    from hypergraph import AsyncRunner, FunctionNode, Graph, InMemoryCache, InterruptNode
+
+    rng = ctx.rng
+    auto = rng.random() < 0.4
+    calls = []
+
+    def ask(draft):
+        calls.append(draft)
+        return ("auto", draft) if auto else None
+
+    def fin(decision):
+        return ("fin", decision)
+
+    g = Graph([InterruptNode(ask, name="ask", output_name="decision", cache=True), FunctionNode(fin, name="fin", output_name="out")], name="ci")
+    backend = InMemoryCache() if rng.random() < 0.5 else None
+    tmp = None
+    if backend is None:
+        from hypergraph import DiskCache
+
+        tmp = tempfile.mkdtemp(prefix="hgc09-", dir=os.path.join(core.VERIF, ".work"))
+        backend = DiskCache(tmp)
+    cached, plain = AsyncRunner(cache=backend), AsyncRunner()
+    history = [{"draft": "d1"}, {"draft": "d1", "decision": "yes"}, {"draft": "d1"}, {"draft": "d2"}, {"draft": "d1"}]
+    case = {"program": "cached interrupt", "handler": "auto-answers" if auto else "pauses", "backend": type(backend).__name__}
+    try:
+        for step, inputs in enumerate(history):
+            rc = asyncio.run(cached.run(g, dict(inputs)))
+            ru = asyncio.run(plain.run(g, dict(inputs)))
+            ctx.obs["cached_runs_compared"] += 1
+            ctx.obs["cached_interrupt_runs"] += 1
+            if (rc.status, rc.values) != (ru.status, ru.values):
+                ctx.violation("C09:cached-differs-from-uncached", f"cached interrupt, run {step} with {inputs}: cached run {rc.status.value} {rc.values} vs uncached {ru.status.value} {ru.values} (history {history[:step]})", {**case, "step": step})
+                break
+    finally:
+        if tmp:
+            try:
+                backend._cache.close()
+            except Exception:  # noqa: BLE001
+                pass
+            shutil.rmtree(tmp, ignore_errors=True)
+    ctx.case({"cached-interrupt": auto, "b": type(backend).__name__}, True)
+
+
 FAULTS = ["payload-bitflip", "payload-truncate-0", "payload-truncate-half", "payload-swapped", "payload-non-bytes", "payload-type-str", "payload-type-int", "payload-type-float", "payload-type-none", "payload-type-bytearray", "sig-bitflip", "sig-type", "sig-type-int", "sig-type-bytes", "sig-type-none", "sig-empty", "sig-non-ascii", "sig-short", "sig-missing", "payload-missing", "torn-fresh", "torn-overwrite"]
 
 
@@ -455,4 +514,7 @@ def run(ctx):
         ctx.inconc("C09 replays are re-generated from the seed; re-run the tier with the recorded seed")
         return
     for i in range(n):
-        history(ctx, i, ["mem", "lru", "disk"][i % 3])
+        if i % 10 == 9:
+            cached_interrupt(ctx, i)
+        else:
+            history(ctx, i, ["mem", "lru", "disk"][i % 3])
